@@ -157,8 +157,9 @@ impl UseMacro {
             },
             
             // A glob import in a `use` item: `*`.
+            // the glob stays in place, it may import the other macros as well
             syn::UseTree::Glob(_) => {
-                return (Some(Self::create_path(None, self.mac_name.clone())), None )
+                return (Some(Self::create_path(None, self.mac_name.clone())), Some(item_use.clone()) )
             },
             
             // A braced group of imports in a `use` item: `{A, B, C}`.
